@@ -199,6 +199,21 @@ func runsFor(prop, tier string) []run {
 				return c
 			}(), pick(6, 8), minutes(pickf(0.4, 3))},
 			{"rebuild-killed-at-every-gate-then-retried", mk(withData, []string{"RB", "Step", "Kill", "MonFail", "W0"}, 3, 1, 0, 4), pick(30, 60), minutes(pickf(1.0, 10))},
+			// an interrupted rebuild had already copied every snapshot; the source then unmaps a block held by one of them
+			// (closed files change in place, no revision counter moves); the second rebuild must bring the copy up to date
+			{"rebuild-retried-after-an-unmap-on-the-source", func() eb.Cfg {
+				init := append(append([]string{}, withData...), "RB:2")
+				for i := 0; i < 15; i++ {
+					init = append(init, "Step")
+				}
+				init = append(init, "Kill")
+				return mk(init, []string{"UnB", "W0", "RB", "Step"}, 3, 1, 0, 4)
+			}(), pick(24, 26), minutes(pickf(0.5, 3))},
+			{"rebuild-with-an-unmap-in-every-gap", func() eb.Cfg {
+				c := mk(withData, []string{"RB", "Step", "UnB"}, 2, 0, 0, 3)
+				c.UnmapAnytime = true
+				return c
+			}(), pick(24, 26), minutes(pickf(0.5, 3))},
 			{"rebuild-with-a-file-transfer-dying-half-way", mk(withData, []string{"RB", "Step", "XferFail"}, 2, 0, 0, 3), pick(30, 60), minutes(pickf(0.6, 6))},
 		}
 	case "C16ctl":
@@ -255,6 +270,8 @@ func runsFor(prop, tier string) []run {
 			{"clone-killed-and-restarted", mk(polling(src1), []string{"CloneProc", "Step", "StepX", "Kill"}, 1, 0, 2), pick(22, 40), minutes(pickf(0.6, 6))},
 			// the cloned snapshot overwrites a block that the older snapshot holds as well
 			{"clone-with-a-failing-extent-query", mk(polling([]string{"Reg:0", "Start:0", "W:0", "Snap:0", "W:0", "W:0", "W:0", "W:0", "Snap:0", "W:0"}), []string{"CloneProc", "Step", "StepX", "FiemapFail"}, 0, 1, 7), pick(24, 32), minutes(pickf(0.5, 4))},
+			// one transfer of a snapshot file dies half way (the sender exits non-zero): the copy is retried from the start
+			{"clone-with-a-file-transfer-dying-half-way", mk(polling(src2), []string{"CloneProc", "Step", "StepX", "XferFail"}, 0, 1, 3), pick(24, 34), minutes(pickf(0.5, 4))},
 			{"clone-vs-start-all-interleavings", mk(src2, []string{"BReg", "BStart", "StepX", "CloneProc", "Step"}, 0, 0, 3), pick(34, 40), minutes(pickf(1.0, 10))},
 		}
 	case "C13":
